@@ -93,6 +93,25 @@ func bin(op string, a, b *Ex) *Ex {
 	case "eq", "ne", "lt", "le", "gt", "ge", "and", "or":
 		isBool = true
 	}
+	// canonical forms, so that harmless rewrites of the source give the same term:
+	// `a > b` is `b < a`, `a ≥ b` is `b ≤ a`; sums and products are flattened and their operands sorted;
+	// `=`/`≠` have the literal on the right, otherwise sorted operands
+	switch op {
+	case "gt":
+		return bin("lt", b, a)
+	case "ge":
+		return bin("le", b, a)
+	case "+", "*":
+		if r := canonAC(op, a, b); r != nil {
+			return r
+		}
+	case "eq", "ne":
+		if !a.Bool && !b.Bool {
+			if (a.isLit() && !b.isLit()) || (!a.isLit() && !b.isLit() && renderVal(b) < renderVal(a)) {
+				a, b = b, a
+			}
+		}
+	}
 	// constant folding keeps generated terms independent of where the source wrote a constant expression
 	if a.isLit() && b.isLit() {
 		x, y := a.Val, b.Val
@@ -199,6 +218,62 @@ func bin(op string, a, b *Ex) *Ex {
 	return &Ex{Op: op, Bool: isBool, A: []*Ex{a, b}}
 }
 
+// canonAC flattens nested applications of the associative-commutative op (+ or *), folds the literals and sorts
+// the other operands by their rendering; returns nil when there is nothing to reorder.
+func canonAC(op string, a, b *Ex) *Ex {
+	var terms []*Ex
+	var collect func(e *Ex)
+	collect = func(e *Ex) {
+		if e.Op == op && !e.Bool {
+			collect(e.A[0])
+			collect(e.A[1])
+			return
+		}
+		terms = append(terms, e)
+	}
+	collect(a)
+	collect(b)
+	acc := big.NewInt(0)
+	if op == "*" {
+		acc = big.NewInt(1)
+	}
+	var rest []*Ex
+	for _, t := range terms {
+		if t.isLit() {
+			if op == "+" {
+				acc = new(big.Int).Add(acc, t.Val)
+			} else {
+				acc = new(big.Int).Mul(acc, t.Val)
+			}
+			continue
+		}
+		rest = append(rest, t)
+	}
+	sort.SliceStable(rest, func(i, j int) bool { return renderVal(rest[i]) < renderVal(rest[j]) })
+	if len(rest) == 0 {
+		return lit(acc)
+	}
+	if op == "*" && acc.Sign() == 0 {
+		return litI(0)
+	}
+	neutral := (op == "+" && acc.Sign() == 0) || (op == "*" && acc.Cmp(big.NewInt(1)) == 0)
+	var r *Ex
+	if op == "*" && !neutral {
+		r = lit(acc) // literal factor first: 3 * x
+	}
+	for _, t := range rest {
+		if r == nil {
+			r = t
+		} else {
+			r = &Ex{Op: op, A: []*Ex{r, t}}
+		}
+	}
+	if op == "+" && !neutral {
+		r = &Ex{Op: op, A: []*Ex{r, lit(acc)}} // literal summand last: x + 1
+	}
+	return r
+}
+
 func not(a *Ex) *Ex {
 	if a.Op == "blit" {
 		return blit(!a.BVal)
@@ -206,7 +281,34 @@ func not(a *Ex) *Ex {
 	if a.Op == "not" {
 		return a.A[0]
 	}
+	switch a.Op {
+	case "eq":
+		return &Ex{Op: "ne", Bool: true, A: a.A}
+	case "ne":
+		return &Ex{Op: "eq", Bool: true, A: a.A}
+	case "lt": // ¬(x < y) is y ≤ x
+		return &Ex{Op: "le", Bool: true, A: []*Ex{a.A[1], a.A[0]}}
+	case "le":
+		return &Ex{Op: "lt", Bool: true, A: []*Ex{a.A[1], a.A[0]}}
+	}
 	return &Ex{Op: "not", Bool: true, A: []*Ex{a}}
+}
+
+// flipCond: conditions are oriented canonically (`=` rather than `≠`, no outer `¬`, the smaller rendering on the
+// left of `<`/`≤` with literals counting as largest), the branches swapped accordingly — so `if c {A} else {B}` and
+// `if !c {B} else {A}` translate to the same term.
+func flipCond(c *Ex) bool {
+	switch c.Op {
+	case "ne", "not":
+		return true
+	case "lt", "le":
+		x, y := c.A[0], c.A[1]
+		if x.isLit() != y.isLit() {
+			return x.isLit()
+		}
+		return renderVal(y) < renderVal(x)
+	}
+	return false
 }
 
 func ite(c, a, b *Ex) *Ex {
@@ -218,6 +320,9 @@ func ite(c, a, b *Ex) *Ex {
 	}
 	if exEqual(a, b) {
 		return a
+	}
+	if flipCond(c) {
+		c, a, b = not(c), b, a
 	}
 	return &Ex{Op: "ite", Bool: a.Bool, A: []*Ex{c, a, b}}
 }
@@ -992,6 +1097,9 @@ func (t *trans) call(st *tstate, call *ast.CallExpr) []*Ex {
 						}
 						continue
 					}
+					if !v.isLit() && (r.isLit() || renderVal(v) < renderVal(r)) {
+						r, v = v, r // canonical operand order: sorted, literal last
+					}
 					r = &Ex{Op: b.Name(), A: []*Ex{r, v}}
 				}
 				return []*Ex{r}
@@ -1415,6 +1523,9 @@ func mkIf(c *Ex, a, b Tree) Tree {
 			return a
 		}
 		return b
+	}
+	if flipCond(c) {
+		c, a, b = not(c), b, a
 	}
 	return &TIf{c, a, b}
 }
